@@ -1,4 +1,6 @@
 mod c01;
+mod c06;
+mod syn;
 mod c10;
 mod c14;
 mod c11;
@@ -7,6 +9,7 @@ mod core;
 mod docs;
 mod patterns;
 mod refmodel;
+mod shape;
 mod space;
 mod terms;
 mod verdicts;
@@ -32,6 +35,30 @@ fn main() {
     }
     return;
   }
+  if args[1] == "fmt" {
+    // mc fmt <cddl-text>: parse, shape, format, re-parse (triage aid)
+    let text = args[2].replace("\\n", "\n");
+    match cddl::cddl_from_str(&text, false) {
+      Err(e) => println!("parse error: {e}"),
+      Ok(a) => {
+        let n = shape::cddl(&a);
+        println!("shape1: {}", n.shape());
+        let s1 = a.to_string();
+        println!("formatted: {:?}", s1);
+        match cddl::cddl_from_str(&s1, false) {
+          Err(e) => println!("re-parse error: {e}"),
+          Ok(b) => {
+            println!("shape2: {}", shape::cddl(&b).shape());
+            println!("formatted2: {:?}", b.to_string());
+          }
+        }
+        for (k, f, c) in n.all_comments() {
+          println!("comment {k}.{f}: {:?}", c);
+        }
+      }
+    }
+    return;
+  }
   if args[1] == "replay" {
     let s = std::fs::read_to_string(&args[2]).expect("read replay file");
     let j: serde_json::Value = serde_json::from_str(&s).expect("json");
@@ -41,6 +68,7 @@ fn main() {
       "C11" => c11::replay(&j["case"]),
       "C01" => c01::replay(&j["case"]),
       "C14" => c14::replay(&j["case"], j["kind"].as_str().unwrap_or("")),
+      "C06" => c06::replay(&j["case"]),
       "C10" => c10::replay(&j["case"], j["kind"].as_str().unwrap_or("")),
       _ => {
         eprintln!("ENGINE-ERROR no replay for {prop}");
@@ -66,6 +94,7 @@ fn main() {
     "C11" => c11::run(tier),
     "C01" => c01::run(tier),
     "C10" => c10::run(tier),
+    "C06" => c06::run(tier),
     "C14" => c14::run(tier),
     x => {
       eprintln!("ENGINE-ERROR unknown property {x}");
